@@ -49,14 +49,22 @@ func newAggregatedLabels(set LabelSet, by, without map[string]struct{}) *aggrega
 
 // By returns new set of labels containing only given list of labels.
 func (a *aggregatedLabels) By(labels ...logql.Label) logqlmetric.AggregatedLabels {
-	if len(labels) == 0 {
-		return a
+	// Keep only labels that are still visible: labels removed by an
+	// inner aggregation must not reappear, and an empty list keeps nothing.
+	by := make(map[string]struct{}, len(labels))
+	for _, label := range labels {
+		if a.by != nil {
+			if _, ok := a.by[string(label)]; !ok {
+				continue
+			}
+		}
+		by[string(label)] = struct{}{}
 	}
 
 	sub := &aggregatedLabels{
 		entries: a.entries,
 		without: a.without,
-		by:      buildSet(maps.Clone(a.by), labels...),
+		by:      by,
 	}
 	return sub
 }
@@ -170,7 +178,7 @@ func (a *aggregatedLabels) forEach(cb func(k, v string)) {
 		if _, ok := a.without[e.name]; ok {
 			continue
 		}
-		if len(a.by) > 0 {
+		if a.by != nil {
 			if _, ok := a.by[e.name]; !ok {
 				continue
 			}
